@@ -29,6 +29,9 @@ pub enum Pat {
     AllButOne,
     /// Bit i is set iff i is a multiple of x (cheap to expand at any length).
     Every(u32),
+    /// Clustered: periods of 65536 set bits followed by 4096 * x bits of which every x-th is set (so that, in
+    /// select support, sixteen short superblocks alternate with one long one); with `true` the complement.
+    Clustered(u32, bool),
 }
 
 #[derive(Clone, Debug, Serialize, Deserialize, PartialEq, Eq)]
@@ -97,6 +100,16 @@ impl Content {
                 out.resize(n, 0);
                 if k >= 64 { let mut p = 0usize; while p < n * 64 { out[p / 64] |= 1u64 << (p % 64); p += k; } }
                 else { for p in (0..n * 64).step_by(k) { out[p / 64] |= 1u64 << (p % 64); } }
+            },
+            Pat::Clustered(k, invert) => {
+                let k = (k.max(1) as usize + 63) / 64 * 64;
+                let period = 65536 + 4096 * k;
+                out.resize(n, 0);
+                for i in 0..n {
+                    let p = (i * 64) % period;
+                    out[i] = if p < 65536 { u64::MAX } else if (p - 65536) % k == 0 { 1 } else { 0 };
+                    if invert { out[i] = !out[i]; }
+                }
             },
         }
         out
